@@ -1,3 +1,160 @@
-import Mqtt5V.Model.Dec
+import Mqtt5V.Proofs.DecRoundtrip
+import Mqtt5V.Proofs.Canon
+/-! # C18 — well-formed packets from the broker decode to exactly their contents
+
+Model: `Model/Dec.lean` (index model of `base_decoders.hpp` / `message_decoders.hpp`, tied to the real decoders by the
+`dec` lock-step on well-formed and damaged packets).  The bytes are described by the encoder combinators of `Model/Enc.lean`
+(`propsBody ps` = the properties in the order given — any order, any repetition), placed anywhere in a buffer (`At`).
+"What the decoder yields" for a property block is `canon allowed ps`: the content of the library's property container after
+assigning the properties in wire order (single-valued slots keep the last value, User Properties and Subscription Identifiers
+keep all, in order). -/
 namespace Mqtt5V.Props.C18
+open Mqtt5V.Wire Mqtt5V.Model.Dec Mqtt5V.Model.Enc Mqtt5V.Proofs.Enc Mqtt5V.Proofs.DecRoundtrip Mqtt5V.Gen.PropTable Mqtt5V.Model.PropsText Mqtt5V.Proofs.Canon
+
+variable (mem : Bs) (rl : Nat)
+
+/-- **full form** of PUBACK / PUBREC / PUBREL / PUBCOMP (after the Packet Identifier), DISCONNECT, AUTH:
+reason code and every property are read back -/
+theorem ack_full_form (allowed : List Nat) (rc : Nat) (ps : Props) (hrc : rc < 256) (hw : ∀ p ∈ ps, WFPropD allowed p)
+    (hsz : propsBodySize ps ≤ 268435455) (pos : Nat) (r : Bs) (h : At mem pos ([rc] ++ propsEncode false ps ++ r))
+    (hrl : pos + (1 + propsSize false ps) ≤ rl) :
+    rcProps allowed ⟨mem, rl⟩ pos (1 + propsSize false ps) = .ok (rc, canon allowed ps) (pos + (1 + propsSize false ps)) := by
+  unfold rcProps
+  rw [if_neg (by omega)]
+  simp only [List.cons_append, List.nil_append] at h
+  simp only
+  rw [byte_ok mem rl pos _ rc _ h (by omega) (by omega)]
+  simp only [Res.bind]
+  rw [props_ok mem rl allowed ps hw hsz (pos + 1) (pos + (1 + propsSize false ps)) r h.2 (by omega) (by omega)]
+  simp only [whole]
+  rw [if_pos (by omega)]
+  congr 1
+  omega
+
+/-- **omitted Property Length** (Remaining Length covers the reason code only): the code is read, no properties -/
+theorem ack_omitted_property_length (allowed : List Nat) (rc pos : Nat) (r : Bs) (h : At mem pos (rc :: r)) (hrl : pos + 1 ≤ rl) :
+    rcProps allowed ⟨mem, rl⟩ pos 1 = .ok (rc, []) (pos + 1) := by
+  unfold rcProps
+  rw [if_neg (by omega)]
+  simp only
+  rw [byte_ok mem rl pos _ rc _ h (by omega) (by omega)]
+  simp [Res.bind, props, whole]
+
+/-- **omitted reason code** (nothing after the Packet Identifier / empty DISCONNECT or AUTH): Success, no properties -/
+theorem ack_omitted_reason_code (allowed : List Nat) (pos : Nat) : rcProps allowed ⟨mem, rl⟩ pos 0 = .ok (0, []) pos := by
+  simp [rcProps]
+
+/-- **CONNACK**: session-present flag, reason code and properties -/
+theorem connack_decodes (sp rc : Nat) (ps : Props) (hsp : sp < 256) (hrc : rc < 256) (hw : ∀ p ∈ ps, WFPropD connackProps p)
+    (hsz : propsBodySize ps ≤ 268435455) (pos : Nat) (r : Bs) (h : At mem pos ([sp, rc] ++ propsEncode false ps ++ r))
+    (hrl : pos + (2 + propsSize false ps) ≤ rl) :
+    decodeConnack ⟨mem, rl⟩ pos (2 + propsSize false ps) = .ok (sp, rc, canon connackProps ps) (pos + (2 + propsSize false ps)) := by
+  unfold decodeConnack
+  simp only [List.cons_append, List.nil_append] at h
+  simp only
+  rw [byte_ok mem rl pos _ sp _ h (by omega) (by omega)]
+  simp only [Res.bind]
+  rw [byte_ok mem rl (pos + 1) _ rc _ h.2 (by omega) (by omega)]
+  simp only [Res.bind]
+  rw [props_ok mem rl connackProps ps hw hsz (pos + 1 + 1) (pos + (2 + propsSize false ps)) r h.2.2 (by omega) (by omega)]
+  simp only [whole]
+  rw [if_pos (by omega)]
+  congr 1
+  omega
+
+/-- **SUBACK / UNSUBACK** (after the Packet Identifier): properties, then one reason code per byte, all of them, in order -/
+theorem codes_decode (allowed : List Nat) (ps : Props) (rcs : Bs) (hne : rcs ≠ []) (hw : ∀ p ∈ ps, WFPropD allowed p)
+    (hsz : propsBodySize ps ≤ 268435455) (pos : Nat) (r : Bs) (h : At mem pos (propsEncode false ps ++ rcs ++ r))
+    (hrl : pos + (propsSize false ps + rcs.length) ≤ rl) :
+    decodeCodes allowed ⟨mem, rl⟩ pos (propsSize false ps + rcs.length) =
+      .ok (canon allowed ps, rcs) (pos + (propsSize false ps + rcs.length)) := by
+  unfold decodeCodes
+  have hl : 0 < rcs.length := List.length_pos_iff.mpr hne
+  rw [List.append_assoc] at h
+  simp only
+  rw [props_ok mem rl allowed ps hw hsz pos (pos + (propsSize false ps + rcs.length)) (rcs ++ r) h (by omega) (by omega)]
+  simp only [Res.bind]
+  rw [if_neg (by omega)]
+  have h' := ((At_append mem (propsEncode false ps) (rcs ++ r) pos).mp h).2
+  rw [propsEncode_length] at h'
+  have e : pos + (propsSize false ps + rcs.length) - (pos + propsSize false ps) = rcs.length := by omega
+  rw [e, slice_ok mem rl (pos + propsSize false ps) _ rcs r h' (by omega) (by omega)]
+  simp only
+  congr 1
+  omega
+
+/-- **PUBLISH**: topic, Packet Identifier exactly when QoS > 0, properties (several Subscription Identifiers and repeated User
+Properties kept in order), and the payload = every remaining byte -/
+theorem publish_decodes (cb : Nat) (topic payload : Bs) (pid : Nat) (ps : Props) (ht : topic.length ≤ 65535) (hp : pid < 65536)
+    (hw : ∀ p ∈ ps, WFPropD publishProps p) (hsz : propsBodySize ps ≤ 268435455) (pos remain : Nat) (r : Bs)
+    (h : At mem pos (lenPrefixed topic ++ ((if cb % 16 / 2 % 4 ≠ 0 then be16 pid else []) ++ (propsEncode false ps ++ (payload ++ r)))))
+    (hrem : remain = 2 + topic.length + (if cb % 16 / 2 % 4 ≠ 0 then 2 else 0) + propsSize false ps + payload.length)
+    (hrl : pos + remain ≤ rl) :
+    decodePublish ⟨mem, rl⟩ cb pos remain =
+      .ok (topic, (if cb % 16 / 2 % 4 ≠ 0 then some pid else none), cb % 16, canon publishProps ps, payload) (pos + remain) := by
+  unfold decodePublish
+  simp only
+  by_cases hq : cb % 16 / 2 % 4 ≠ 0
+  · simp only [hq, if_true, ne_eq, not_false_eq_true] at h hrem ⊢
+    rw [lenPrefix_ok mem rl pos _ topic _ h ht (by omega) (by omega)]
+    simp only [Res.bind]
+    have h1 := ((At_append mem (lenPrefixed topic) _ pos).mp h).2
+    have e1 : pos + (lenPrefixed topic).length = pos + 2 + topic.length := by simp [lenPrefixed, be16]; omega
+    rw [e1] at h1
+    rw [bigWord_ok mem rl (pos + 2 + topic.length) _ pid _ h1 hp (by omega) (by omega)]
+    simp only [Res.bind]
+    have h2 := ((At_append mem (be16 pid) _ (pos + 2 + topic.length)).mp h1).2
+    have e2 : pos + 2 + topic.length + (be16 pid).length = pos + 2 + topic.length + 2 := by simp [be16]
+    rw [e2] at h2
+    rw [props_ok mem rl publishProps ps hw hsz (pos + 2 + topic.length + 2) _ (payload ++ r) h2 (by omega) (by omega)]
+    simp only [Res.bind]
+    have h3 := ((At_append mem (propsEncode false ps) _ (pos + 2 + topic.length + 2)).mp h2).2
+    rw [propsEncode_length] at h3
+    have e : pos + remain - (pos + 2 + topic.length + 2 + propsSize false ps) = payload.length := by omega
+    rw [e, slice_ok mem rl _ _ payload r h3 (by omega) (by omega)]
+    simp only
+    congr 1
+    omega
+  · simp only [hq, if_false, List.nil_append] at h hrem ⊢
+    rw [lenPrefix_ok mem rl pos _ topic _ h ht (by omega) (by omega)]
+    simp only [Res.bind]
+    have h1 := ((At_append mem (lenPrefixed topic) _ pos).mp h).2
+    have e1 : pos + (lenPrefixed topic).length = pos + 2 + topic.length := by simp [lenPrefixed, be16]; omega
+    rw [e1] at h1
+    rw [props_ok mem rl publishProps ps hw hsz (pos + 2 + topic.length) _ (payload ++ r) h1 (by omega) (by omega)]
+    simp only [Res.bind]
+    have h3 := ((At_append mem (propsEncode false ps) _ (pos + 2 + topic.length)).mp h1).2
+    rw [propsEncode_length] at h3
+    have e : pos + remain - (pos + 2 + topic.length + propsSize false ps) = payload.length := by omega
+    rw [e, slice_ok mem rl _ _ payload r h3 (by omega) (by omega)]
+    simp only
+    congr 1
+    omega
+
+/-- every property table of the library lists each identifier once (needed for the fixed-point property of the container) -/
+theorem tables_nodup : connackProps.Nodup ∧ publishProps.Nodup ∧ pubackProps.Nodup ∧ pubrecProps.Nodup ∧ pubrelProps.Nodup ∧
+    pubcompProps.Nodup ∧ subackProps.Nodup ∧ unsubackProps.Nodup ∧ disconnectProps.Nodup ∧ authProps.Nodup := by decide
+
+/-- **encoding the result again reproduces the same contents**: the decoded acknowledgement `(rc, canon ps)`, encoded by the
+library's encoder model in full form and decoded once more, is `(rc, canon ps)` again -/
+theorem ack_reencode_roundtrip (allowed : List Nat) (hnd : allowed.Nodup) (rc : Nat) (ps : Props) (hrc : rc < 256)
+    (hw : ∀ p ∈ ps, WFPropD allowed p) (hsz : propsBodySize (canon allowed ps) ≤ 268435455) (pos : Nat) (r : Bs)
+    (h : At mem pos ([rc] ++ propsEncode false (canon allowed ps) ++ r))
+    (hrl : pos + (1 + propsSize false (canon allowed ps)) ≤ rl) :
+    rcProps allowed ⟨mem, rl⟩ pos (1 + propsSize false (canon allowed ps)) =
+      .ok (rc, canon allowed ps) (pos + (1 + propsSize false (canon allowed ps))) := by
+  have := ack_full_form mem rl allowed rc (canon allowed ps) hrc (fun p hp => hw p (mem_canon allowed ps p hp)) hsz pos r h hrl
+  rw [canon_idem allowed ps hnd] at this
+  exact this
+
+/-- non-vacuity: a PUBACK body `rc=0x10, Reason String "ab", User Property k=v` anywhere in a buffer satisfies the hypotheses -/
+example : ∀ p ∈ ([⟨0x1F, .str [97, 98]⟩, ⟨0x26, .pair [107] [118]⟩] : Props), WFPropD pubackProps p := by
+  intro p hp
+  simp at hp
+  rcases hp with rfl | rfl
+  · exact ⟨by decide, by decide, ⟨false, by decide⟩, by simp [WFVal]⟩
+  · exact ⟨by decide, by decide, ⟨true, by decide⟩, by simp [WFVal]⟩
+
+example : rcProps pubackProps ⟨[0xAA, 0x10, 5, 0x1F, 0, 2, 97, 98, 0xBB], 8⟩ 1 7 = .ok (0x10, [⟨0x1F, .str [97, 98]⟩]) 8 := by rfl
+
 end Mqtt5V.Props.C18
